@@ -63,4 +63,18 @@ PlacementHolds(old, new, e) ==
         \* explicit position next to the other records that express the same component
         \* (add_covariance_record puts $COVARIANCE right after the $ESTIMATION it belongs to)
         \/ Gaps(old, k, e) = {} /\ g \in UNION {Gaps(old, k2, e) : k2 \in Touches(e) \ {k}}
+
+(* Comments.  oldc / newc: the comments (";..." to the end of the line) of the old and the new text in order,
+   each <<kind of its record, cid, ext>>: cid identifies the exact comment text, ext = cid of an OLD comment of
+   which this text is a proper extension or truncation (0: none).  The statement "every comment ... that does not
+   express the modified component is preserved exactly":
+     (1) the comments of records of untouched kinds are the same sequence (follows from Frame, stated for itself);
+     (2) no comment is corrupted: a new comment may not be an extension / truncation of an old comment that is
+         itself gone (text glued onto a comment line, or a comment cut short) -- whatever the kind of its record.
+   Comments that vanish together with a record that was rewritten are admitted (the record expressed the component). *)
+CommentIds(cs) == {cs[i][2] : i \in 1..Len(cs)}
+UntouchedComments(cs, e) == SelectSeq(cs, LAMBDA c : c[1] \notin Touches(e))
+CommentsHold(oldc, newc, e) ==
+    /\ UntouchedComments(oldc, e) = UntouchedComments(newc, e)
+    /\ \A i \in 1..Len(newc) : newc[i][3] = 0 \/ newc[i][3] \in CommentIds(newc)
 =============================================================================
